@@ -86,8 +86,35 @@ func Load(repo, goarch string, tests bool) (*Prog, error) {
 	if len(p.byRel) < 12 {
 		return nil, fmt.Errorf("only %d packages loaded, expected >= 12", len(p.byRel))
 	}
+	// pure one-argument predicates of the module (`func isX(c byte) bool { return <expr> }`): evalPred
+	// evaluates a call of one on the variable by evaluating its body
+	for _, pk := range p.byRel {
+		for _, f := range pk.Syntax {
+			for _, d := range f.Decls {
+				fd, ok := d.(*ast.FuncDecl)
+				if !ok || fd.Body == nil || fd.Recv != nil || len(fd.Body.List) != 1 || fd.Type.Params.NumFields() != 1 || len(fd.Type.Params.List[0].Names) != 1 {
+					continue
+				}
+				rs, ok := fd.Body.List[0].(*ast.ReturnStmt)
+				if !ok || len(rs.Results) != 1 {
+					continue
+				}
+				if obj, ok := pk.TypesInfo.Defs[fd.Name].(*types.Func); ok {
+					predFuncs[obj] = predFunc{pk.TypesInfo, pk.TypesInfo.Defs[fd.Type.Params.List[0].Names[0]], rs.Results[0]}
+				}
+			}
+		}
+	}
 	return p, nil
 }
+
+type predFunc struct {
+	info  *types.Info
+	param types.Object
+	body  ast.Expr
+}
+
+var predFuncs = map[*types.Func]predFunc{}
 
 // Pkg returns the module package with the given path relative to the module root ("" = root).
 func (p *Prog) Pkg(rel string) *packages.Package { return p.byRel[rel] }
